@@ -84,7 +84,7 @@ func (c11) Plan(tier string, seed int64) []mon.Workload {
 	if tier == "thorough" {
 		rnd = 200000
 	}
-	return []mon.Workload{{Name: "table", N: n, Exhaustive: true}, {Name: "random", N: rnd}}
+	return []mon.Workload{{Name: "table", N: n, Exhaustive: true}, {Name: "random", N: rnd}, {Name: "sequences", N: rnd / 2}}
 }
 
 type c11Case struct {
@@ -237,6 +237,10 @@ func (c11) build(c *mon.Ctx, workload string, i int64) c11Case {
 }
 
 func (k c11) Describe(c *mon.Ctx, workload string, i int64) any {
+	if workload == "sequences" {
+		cs := k.sequence(c)
+		return map[string]any{"source": gt.Print(gt.ParenthesizeStmts(cs.Stmts), nil), "point": cs.Point.Show()}
+	}
 	cs := k.build(c, workload, i)
 	if cs.Skip {
 		return "skipped combination"
@@ -244,7 +248,54 @@ func (k c11) Describe(c *mon.Ctx, workload string, i int64) any {
 	return map[string]any{"source": gt.Print(gt.ParenthesizeStmts(cs.Stmts), nil), "point": cs.Point.Show(), "cell": cs.Cell}
 }
 
+// sequence: several builtin calls in a row on a small key set, with reads in
+// between: an effect of one call on ANOTHER key (or on a later call) shows up
+// in the full-point comparison.
+func (c11) sequence(c *mon.Ctx) c11Case {
+	r := c.R
+	keys := []string{"k", "k2", "o", "bt", "fresh"}
+	pt := ref.NewPoint("meas", map[string]string{"bt": "bystander", "k2": "tagged"}, map[string]any{"k": "  Text a%20b  ", "o": int64(5), "b1": 2.5}, time.Unix(1700000123, 0))
+	var stmts []*gt.T
+	readAll := func() *gt.T {
+		a := []*gt.T{}
+		for _, k := range keys {
+			a = append(a, gt.Call("get_key", gt.Ident(k)))
+		}
+		return gt.Call("p", a...)
+	}
+	n := 2 + r.Intn(4)
+	for j := 0; j < n; j++ {
+		shape := c11Shapes[r.Intn(len(c11Shapes))]
+		if shape.Name == "printf" || shape.Name == "load_json" || shape.Name == "len" {
+			shape = c11Shapes[0]
+		}
+		ba := &gen.BuiltinArgs{R: r, Keys: keys}
+		ba.Expr = func() *gt.T {
+			switch r.Intn(4) {
+			case 0:
+				return gt.Ident(keys[r.Intn(len(keys))])
+			case 1:
+				return gt.Int(int64(r.Intn(9)))
+			case 2:
+				return gt.List(gt.Int(1), gt.Str("x"))
+			}
+			return gt.Str("v" + fmt.Sprint(j))
+		}
+		call := ba.Call(shape)
+		if shape.Name == "cast" && shape.Fixed != "" {
+			call.Kids[1] = gt.Str(shape.Fixed)
+		}
+		stmts = append(stmts, call, readAll())
+	}
+	return c11Case{Stmts: stmts, Point: pt, Cell: ""}
+}
+
 func (k c11) Run(c *mon.Ctx, workload string, i int64) {
+	if workload == "sequences" {
+		cs := k.sequence(c)
+		runBuiltinCase(c, cs.Stmts, cs.Point, "", ref.Merge(ref.ProbeFuncs(), ref.FieldFuncs()), "c11.p")
+		return
+	}
 	cs := k.build(c, workload, i)
 	if cs.Skip {
 		return
